@@ -329,8 +329,12 @@ pub fn replay(vs: &[Value], rep: &Report, threads: usize, seed: u64, tmp: &str, 
         rep.merge_counts(&cnt.0);
     });
     for (i, st) in crashes {
+        // a fault (SIGSEGV / SIGBUS) is an access outside the slices; an exit through a Rust panic (code 101) or an
+        // abort is a panic of the code under test -- a different property's business
+        let sig = st & 0x7f;
+        let class = if sig == 11 || sig == 7 { Class::Oob } else { Class::Panic };
         rep.finding(
-            Class::Oob,
+            class,
             &format!("process died with {} while searching slices that abut PROT_NONE pages", describe_status(st)),
             json!({"vector": vs[i]}),
         );
